@@ -27,7 +27,7 @@ RULE_GLOSS = {
     "C18.ord": "Rank's ordering operators are the derived ones", "D1": "the scan list is all ids stably sorted by rank",
     "D1r": "Rank's ordering operators are the derived ones", "D2": "inner scan over list[position..] of the same sorted list, outer from the end, complete",
     "D3": "no nondeterministic source in build()", "D4": "FnGraph == compares counts, endpoints, weights and functions pairwise, monotonically, attribute by attribute",
-    "D4e": "Edge == is the derived comparison", "E": "edge-adding builder methods are exactly update_edge with the right constant kind, batch forms insert per element and return the first error",
+    "D4e": "Edge == is the derived comparison", "E": "edge-adding builder methods are exactly update_edge with the right constant kind, batch forms insert per element and return the first error, and no `&mut self` builder method moves the graph out of the builder or replaces it",
     "F": "failure path: one error send, done-send only after the result is examined, release before done, drain after join",
     "G": "GraphInfo: nodes/edges copied in order, serde derives and tables agree with no hand-written hook, Topo-only iteration, == monotone and attribute-wise",
     "I": "interruptibility wiring: the caller's state and include flag reach the tracking function and interruptible_with unchanged",
@@ -35,7 +35,7 @@ RULE_GLOSS = {
     "IM": "interrupt mapping table", "K": "rank calculation: zero init, root seeds, candidate = ranks[parent]+1 under a strict guard (or max), re-queue on raise, complete walks",
     "K7": "Rank's ordering operators are the derived ones", "L1": "limit flows unchanged into for_each_concurrent over the READY stream",
     "L2": "fold steps are sequential and return only after the user future's Ready arm", "L3": "limit influences nothing but that argument",
-    "L4": "no shared lock/permit is taken ahead of a user future in a per-function body", "L5": "no write re-acquisition of an async lock while a guard of it is alive in the same future",
+    "L4": "no shared lock/permit is taken ahead of a user future in a per-function body", "L5": "no re-acquisition of an async lock (write; or read under a read guard, which queues behind a waiting writer) while a guard of it is alive in the same future, directly or inside an awaited helper",
     "L6": "every invocation of the caller's function is under the one limited, interruption-gated for_each_concurrent",
     "N": "no state of a run is written into the graph: no interior mutability, unsafe, statics, field writes or &mut borrows outside build()",
     "N6": "no RNG, clock, thread, environment or hash-order dependence", "N7": "no blocking call (block_on, blocking_*, sleep, park)",
@@ -99,7 +99,8 @@ prop("C03",
      K01,
      "Decides S2 (each ready-send is the preload of all zero-count nodes or the release at count==0 after the decrement), "
      "S3 (counts only decrease by one per predecessor edge), S6 (channel capacities are monotone in node_count so try_send never drops an id) "
-     "and R3 (counts and structure copies describe the same, augmented, graph).",
+     "R3 (counts and structure copies describe the same, augmented, graph) and T3 (the stream's hand-written poll function never returns Pending with done notifications "
+     "still queued and no wake-up registered: every released function is handed out).",
      "MIR dataflow: allocation-site provenance of channels/counts, expression reconstruction of guards and capacities",
      "liveness of user futures; the at-most-once induction (paper)")
 
@@ -210,7 +211,8 @@ prop("C16",
      ("K0", "K4"),
      "Decides E1 (add_logic_edge/add_contains_edge perform exactly one daggy::Dag::update_edge(from, to, const Logic|Contains) - directly or through crate-local helpers whose parameters are "
      "resolved at their call site - with the result returned unchanged), E2 (batch forms perform that same insertion once per element in array order, with the kind their name says, stop at and return the first error), "
-     "E3 (no other public builder method mutates the edges of the user's graph) and W1 (build() itself adds only Data edges and calls no other node/edge-set mutator, so accepted edges reach the built graph intact).",
+     "E3 (no other public builder method mutates the edges of the user's graph), E4 (a `&mut self` method never moves the user's graph out of the builder or stores another graph into it - "
+     "no mem::take/replace/swap, no whole-field store - so a rejected edge leaves the builder as it was) and W1 (build() itself adds only Data edges and calls no other node/edge-set mutator, so accepted edges reach the built graph intact).",
      "MIR call inventory with resolved callees + argument provenance",
      "daggy's cycle test itself (update_edge: must_check_for_cycle + has_path_connecting), trusted")
 
@@ -238,7 +240,8 @@ prop("C07",
      "path to the done-send passes through the release of the done-sender), F3 (RESULT capacity monotone in node_count; its receiver is drained only "
      "after the join; Err((outcome, errors)) iff the collected vector is non-empty, unchanged), F4 (control adapters map Continue->Ok, Break(e)->Err(e)), "
      "F5 (try-fold: the step's Err value is the user's error via `?` and no callback is reachable after it), F6 (the per-item futures are driven by an adaptor that does not stop at the first Err), plus T1.FAILED, and B1/B2 (the order requested in StreamOpts reaches the structure/count selection of every variant, "
-     "so 'ordered after the failed function' means the same edges in the run as in the property).",
+     "so 'ordered after the failed function' means the same edges in the run as in the property), and K1-K5 / D1 as premises (the rank calculation and the stable rank sort decide "
+     "which of two conflicting functions is the dependent: a rank that is too low reverses a Data edge and the dependent of a failed function starts).",
      "MIR must-pass-through (dominance/path) analysis from the Err arm + provenance of error values with failure-tagged access paths",
      "that already started futures complete (contract of for_each_concurrent, trusted)")
 
